@@ -1,18 +1,265 @@
 /-
   C02  Serialization emits valid JSON denoting the tree; parse(serialize(T)) = T.
-  (work in progress: theorems are added below as they are proved)
+
+  Property theorems only.
+    Model : JsonC/Model/Serialize.lean   (transcription of the serializer of json_object.c: escape loop with
+            start_offset batching, int formatting in sbuf[21], the 128-byte double buffer with comma→point,
+            looks_numeric, ".0", NOZERO trimming, truncation; layout; colour; every array access and `int`
+            computation checked = `Outcome.fault`).  libc's `snprintf("%.17g")` is the parameter `fmt`.
+    Spec  : JsonC/Spec/Rfc8259.lean (RFC 8259 as the datatype `Doc`: `text`, `denote`, `ok`, `utf8Valid`) and
+            JsonC/Spec/SerSpec.lean (`docOf` = the explicit document a tree must be rendered as under given
+            flags, `escByte` = what is emitted per string byte, `valEq`, `docTokens`, `treeOk`, `roundTrips`).
+
+  Quantifiers: `flags : Nat` is any `int` flag word (the six JSON_C_TO_STRING_* bits are decoded by `Fl.ofNat`
+  with the constants regenerated from json_object.h; all 64 combinations are covered because the statements hold
+  for every `flags`); `v` is any tree with `treeOk fmt v` (= built through the API: any byte strings incl. NUL
+  and invalid UTF-8, any int64/uint64, any finite double, any nesting); `fmt` is any libc `%.17g` whose output
+  on the doubles of the tree has the shape `g17Shape` — a hypothesis on libc inside `treeOk`, checked against
+  glibc and against the exact reference `Dbl.fmtG17` on every double of every correspondence run.
 -/
-import JsonC.Spec.SerSpec
+import JsonC.Lemmas.SerializeRoundtrip
+import JsonC.Model.Tokener
 
 namespace JsonC.Serialize
-open JsonC Generated
+open JsonC Generated SerSpec Rfc8259
 
-/-- the statements of json_object.c whose exact form the model transcribes are still there -/
+/-- the statements of json_object.c whose exact form the model transcribes are still there, and the
+128-byte buffer / ".0" guard / sbuf sizes have the values the proofs use -/
 theorem src_shape :
     serEscHexIdx = true ∧ serEscCtlBelowSpace = true ∧ serEscUnsignedChar = true ∧ serEscCases = [8, 10, 13, 9, 12, 34, 92, 47] ∧
     serIntBySignedness = true ∧ serLooksNumericFromText = true ∧ serNoZeroStopsAtExp = true ∧ serNoZeroMove = true ∧
     serCommaToPoint = true ∧ serDblTruncates = true ∧ serStringUsesStoredLen = true ∧ serUserdataStrlen = true ∧
-    serKeyStrlen = true ∧ serTopLevel = true ∧ serIndentShape = true ∧ serStdFormat = [37, 46, 49, 55, 103] := by
+    serKeyStrlen = true ∧ serTopLevel = true ∧ serIndentShape = true ∧ serStdFormat = [37, 46, 49, 55, 103] ∧
+    serDblBuf = 128 ∧ serDotZeroSlack = 2 ∧ serIntBuf = 21 ∧ serEscBuf = 7 := by
   decide
+
+variable (fmt : UInt64 → Bytes)
+
+/-! ## every byte of every string -/
+
+/-- **json_escape_str, all byte strings** (control bytes, NUL, DEL, invalid UTF-8 …), both values of
+NOSLASHESCAPE: the batching loop never faults (no out-of-bounds read of `json_hex_chars`, `sbuf` large
+enough) and emits exactly one piece per input byte, in order: `escByte` — `\b \n \r \t \f \" \\`, `\/`
+unless NOSLASHESCAPE, `\u00XX` (lower-case hex) for the other bytes below 0x20 (NUL included), and
+**every other byte verbatim, in particular every byte ≥ 0x80** (`escByte_high`). -/
+theorem ser_escape_bytes (noSlash : Bool) (s : Bytes) : escapeStr noSlash s = .ok (s.flatMap (escByte noSlash)) :=
+  escapeStr_eq noSlash s
+
+/-- the pieces are the RFC 8259 string items `itemsOf` (`raw` byte, two-character escape, `\u00XX`), each
+well-formed, and they denote exactly the string's bytes -/
+theorem ser_escape_items (noSlash : Bool) (s : Bytes) :
+    s.flatMap (escByte noSlash) = (itemsOf noSlash s).flatMap StrItem.text ∧
+    (itemsOf noSlash s).all StrItem.ok = true ∧ decodeItems (itemsOf noSlash s) = s :=
+  ⟨(items_text noSlash s).symm, items_ok noSlash s, decodeItems_itemsOf noSlash s⟩
+
+/-! ## the text -/
+
+/-- **No fault**: for every tree of the property, every flag word and nesting below 2^30, serialization
+performs no out-of-bounds access and no `int` overflow (`strcat(buf, ".0")` stays inside the 128-byte
+buffer, `level * 2` and `level + 1` stay in range, `int userdata_len` holds the length). -/
+theorem ser_no_fault (flags : Nat) (v : JVal) (hok : treeOk fmt v = true) (hn : 2 * nest v ≤ intMax) :
+    ∃ t, serialize fmt flags v = .ok t := by
+  cases v with
+  | null => exact ⟨_, rfl⟩
+  | bool b => obtain ⟨_, t, _, h, _⟩ := (render_all fmt).1 (.bool b) (Fl.ofNat flags) 0 hok (by omega); exact ⟨t, h⟩
+  | int s x => obtain ⟨_, t, _, h, _⟩ := (render_all fmt).1 (.int s x) (Fl.ofNat flags) 0 hok (by omega); exact ⟨t, h⟩
+  | dbl b x => obtain ⟨_, t, _, h, _⟩ := (render_all fmt).1 (.dbl b x) (Fl.ofNat flags) 0 hok (by omega); exact ⟨t, h⟩
+  | str s => obtain ⟨_, t, _, h, _⟩ := (render_all fmt).1 (.str s) (Fl.ofNat flags) 0 hok (by omega); exact ⟨t, h⟩
+  | arr xs => obtain ⟨_, t, _, h, _⟩ := (render_all fmt).1 (.arr xs) (Fl.ofNat flags) 0 hok (by omega); exact ⟨t, h⟩
+  | obj kvs => obtain ⟨_, t, _, h, _⟩ := (render_all fmt).1 (.obj kvs) (Fl.ofNat flags) 0 hok (by omega); exact ⟨t, h⟩
+
+/-- **ser_no_nul**: whatever the tree (any bytes, NaN/Infinity, junk retained text), whatever libc formats
+and whatever the flags, a returned text contains no NUL byte … -/
+theorem ser_no_nul (flags : Nat) (v : JVal) (t : Bytes) (h : serialize fmt flags v = .ok t) : 0 ∉ t := by
+  cases v with
+  | null => cases h; decide
+  | bool b => exact (no_nul_all fmt).1 _ _ _ _ h
+  | int s x => exact (no_nul_all fmt).1 _ _ _ _ h
+  | dbl b x => exact (no_nul_all fmt).1 _ _ _ _ h
+  | str s => exact (no_nul_all fmt).1 _ _ _ _ h
+  | arr xs => exact (no_nul_all fmt).1 _ _ _ _ h
+  | obj kvs => exact (no_nul_all fmt).1 _ _ _ _ h
+
+/-- … so `strlen` of the returned buffer is the reported length (`*length = bpos` = number of bytes appended) -/
+theorem ser_strlen_eq_length (flags : Nat) (v : JVal) (t : Bytes) (h : serialize fmt flags v = .ok t) :
+    (t.takeWhile (· != 0)).length = t.length := by
+  have h0 := ser_no_nul fmt flags v t h
+  rw [takeWhile_all]
+  intro x hx
+  simp only [bne_iff_ne, ne_eq]; intro e; subst e; exact h0 hx
+
+/-- the document a whole tree must be rendered as (a NULL `jso` and a null child are both `null`) -/
+def docOfTop (flags : Nat) (v : JVal) : Option Doc := docOf fmt (Fl.ofNat flags) 0 v
+
+/-- **ser_is_doc**: for every tree of the property (strings are *any* bytes) and every flag word the
+colour-stripped output is the rendering `Doc.text` of the explicitly constructed document `docOfTop`,
+whose pieces are well-formed (`Doc.ok`: digits are digits, no superfluous leading zero, unescaped bytes
+are neither control characters nor `"` nor `\`, hex digits are hex digits).  RFC 8259 additionally
+requires the text to be UTF-8: string bytes ≥ 0x80 are copied verbatim (`ser_escape_bytes`,
+`escByte_high`), so the text is RFC 8259 exactly when every string and key of the tree is UTF-8
+(`utf8Tree`; the correspondence run checks `utf8Valid text = utf8Tree v` on every case with two
+independent UTF-8 validators). -/
+theorem ser_is_doc (flags : Nat) (v : JVal) (hok : treeOk fmt v = true) (hn : 2 * nest v ≤ intMax) :
+    ∃ d t, serialize fmt flags v = .ok t ∧ docOfTop fmt flags v = some d ∧ d.ok = true ∧ stripColor t = d.text := by
+  have key : ∀ v, treeOk fmt v = true → 2 * nest v ≤ intMax →
+      ∃ d t, serChild fmt (Fl.ofNat flags) 0 v = .ok t ∧ docOf fmt (Fl.ofNat flags) 0 v = some d ∧ d.ok = true ∧
+        stripColor t = d.text := by
+    intro v hok hn
+    obtain ⟨d, t, hd, ht, hdok, _, hs⟩ := (render_all fmt).1 v (Fl.ofNat flags) 0 hok (by omega)
+    refine ⟨d, t, ht, hd, hdok, ?_⟩
+    have := hs []
+    simpa [stripColor, strip] using this
+  cases v with
+  | null => exact ⟨.null, nullBytes, rfl, rfl, rfl, by decide⟩
+  | bool b => exact key _ hok hn
+  | int s x => exact key _ hok hn
+  | dbl b x => exact key _ hok hn
+  | str s => exact key _ hok hn
+  | arr xs => exact key _ hok hn
+  | obj kvs => exact key _ hok hn
+
+/-- **ser_denotes**: that document denotes the tree, up to the equality of the property (`valEq`: integers
+by value whatever the C type, doubles by IEEE bit pattern, strings/keys by bytes, members in order).
+Named libc hypothesis `roundTrips fmt Dbl.strtod v`: reading the emitted text of each finite double of
+the tree back (correctly rounded) gives that double — true of `%.17g`, checked on every double of every
+correspondence run (`g17` / `rt` ops), never an axiom. -/
+theorem ser_denotes (flags : Nat) (v : JVal) (d : Doc) (hok : treeOk fmt v = true)
+    (hrt : roundTrips fmt Dbl.strtod v = true) (hd : docOfTop fmt flags v = some d) : valEq d.denote v = true :=
+  (denote_all fmt).1 v (Fl.ofNat flags) 0 d hok hrt hd
+
+/-- **ser_flags_ws_only**: for any two flag words the two renderings have the same token values, token by
+token — flags change only insignificant whitespace (the `Ws` fields of `Doc`, which `docTokens` drops)
+and colour (already stripped).  NOSLASHESCAPE changes the *spelling* of string tokens (`/` vs `\/`), never
+their value; with equal NOSLASHESCAPE bits the token sequences are identical, spelling included.
+NOZERO changes nothing at all on `%.17g` output (`doublePost_shape`: the trailing-zero scan stops at the
+exponent and `%.17g` leaves no removable zero). -/
+theorem ser_flags_ws_only (flags1 flags2 : Nat) (v : JVal) (d1 d2 : Doc)
+    (h1 : docOfTop fmt flags1 v = some d1) (h2 : docOfTop fmt flags2 v = some d2) :
+    (docTokens d1).map Token.value = (docTokens d2).map Token.value ∧
+    ((Fl.ofNat flags1).noSlash = (Fl.ofNat flags2).noSlash → docTokens d1 = docTokens d2) :=
+  (tokens_all fmt).1 v (Fl.ofNat flags1) (Fl.ofNat flags2) 0 0 d1 d2 h1 h2
+
+/-- the double post-processing, for every libc output of the `%.17g` shape and both values of NOZERO: no
+fault; the bytes appended are the number `numOfG17 t` — `t`, or `t ++ ".0"` when `t` has neither fraction
+nor exponent (so `-0` is printed `-0.0` and re-parses as a double) -/
+theorem ser_double_post (noZero : Bool) (t : Bytes) (h : g17Shape t = true) :
+    ∃ n, numOfG17 t = some n ∧ n.ok = true ∧ (n.frac.isSome || n.exp.isSome) = true ∧ doublePost noZero t = .ok n.text :=
+  doublePost_shape noZero t h
+
+/-! ## the round trip -/
+
+section roundtrip
+open Tokener
+
+/-- C01's theorem (in progress in Props/C01.lean as `parse_valid lc hl`), carried as a named hypothesis:
+json_tokener_parse_ex with len = -1 on the text of a well-formed RFC 8259 document returns what the
+document denotes -/
+def ParseValidHyp (lc : Libc) : Prop :=
+  ∀ (d : Int) (f : Nat) (t : Tok) (x : Rfc8259.Text), Tokener.new d f = some t → (f = 0 ∨ f = 1) →
+    x.doc.ok = true → x.doc.nest < d.toNat → x.doc.intsFit = true → x.doc.keysNulFree = true →
+    let fin := parseExZ lc t x.text
+    fin.err = .success ∧ fin.value = some x.doc.denote ∧ fin.offset = x.text.length ∧ fin.fault = none ∧ fin.stuck = false
+
+/-- **roundtrip**, full statement: for every tree of the property nested less than the tokener's depth
+(32), and every flag word without COLOR (coloured text is not JSON), `json_tokener_parse_ex(new_ex(32),
+text, -1)` succeeds at the end of the text with a tree equal to the original, and serializing that tree
+with the same flags reproduces the text byte for byte. -/
+def RoundtripStatement (lc : Libc) : Prop :=
+  ∀ (flags : Nat) (v : JVal), (Fl.ofNat flags).color = false → treeOk fmt v = true →
+    roundTrips fmt Dbl.strtod v = true → nest v < 32 →
+    ∃ t tok p, serialize fmt flags v = .ok t ∧ Tokener.new 32 0 = some tok ∧
+      (parseExZ lc tok t).err = .success ∧ (parseExZ lc tok t).value = some p ∧
+      (parseExZ lc tok t).offset = t.length ∧ (parseExZ lc tok t).fault = none ∧ (parseExZ lc tok t).stuck = false ∧
+      valEq p v = true ∧ serialize fmt flags p = .ok t
+
+theorem serialize_eq_child (flags : Nat) (v : JVal) (hc : (Fl.ofNat flags).color = false) :
+    serialize fmt flags v = serChild fmt (Fl.ofNat flags) 0 v := by
+  cases v <;> try rfl
+  simp [serialize, serChild, withColor, hc]
+
+/-- **roundtrip** as the corollary of `ser_is_doc` and C01 it is: `ParseValidHyp lc → RoundtripStatement`.
+(The proof needs nothing else: the document's nesting is the tree's, its integers fit 64 bits, its names
+are NUL-free, it denotes the tree, and what it denotes serializes to the same bytes.) -/
+theorem roundtrip_of_parse_valid (lc : Libc) (hpv : ParseValidHyp lc) : RoundtripStatement fmt lc := by
+  intro flags v hc hok hrt hnest
+  have hlvl : 2 * (0 + nest v) ≤ intMax := by have : intMax = 2147483647 := rfl; omega
+  obtain ⟨d, t, hd, ht, hdok, hesc, hs⟩ := (render_all fmt).1 v (Fl.ofNat flags) 0 hok hlvl
+  have htext : t = d.text := by
+    have h1 := hs []
+    have h2 := strip_noesc' t (hesc hc)
+    simp only [List.append_nil] at h1
+    rw [h2] at h1; simpa [strip] using h1
+  obtain ⟨hn, hfit, hknf⟩ := (shape_all fmt).1 v (Fl.ofNat flags) 0 d hok hd
+  have hnew : Tokener.new 32 0 = some { stack := [freshLevel], maxDepth := 32, pb := [], stPos := 0, isDouble := false,
+      ucs := 0, hs := 0, quote := 0, flags := 0 } := rfl
+  have hp := hpv 32 0 _ ⟨[], d, []⟩ hnew (Or.inl rfl) hdok (by rw [hn]; exact hnest) hfit hknf
+  have hxt : (⟨[], d, []⟩ : Rfc8259.Text).text = d.text := by simp [Rfc8259.Text.text, Ws.text]
+  simp only [hxt] at hp
+  obtain ⟨p1, p2, p3, p4, p5⟩ := hp
+  refine ⟨t, _, d.denote, by rw [serialize_eq_child fmt flags v hc]; exact ht, hnew, ?_, ?_, ?_, ?_, ?_, ?_, ?_⟩
+  · rw [htext]; exact p1
+  · rw [htext]; exact p2
+  · rw [htext]; exact p3
+  · rw [htext]; exact p4
+  · rw [htext]; exact p5
+  · exact (denote_all fmt).1 v (Fl.ofNat flags) 0 d hok hrt hd
+  · rw [serialize_eq_child fmt flags d.denote hc]
+    exact (reser_all fmt).1 v (Fl.ofNat flags) 0 d t hok hd ht
+
+/-- **roundtrip_partial**: the part proved without C01's theorem, on the tokener machine itself — the
+scalars whose text does not depend on the value's size: `null`, `true`, `false` under every flag word
+without COLOR (and `reserialize`).  Strings, numbers and containers are `roundtrip_of_parse_valid`;
+until `parse_valid` is closed they are decided by the correspondence run (`rt` op: status, json_object_equal,
+byte-identical re-serialization, on every generated tree). -/
+theorem roundtrip_partial (flags : Nat) (v : JVal) (hv : v = .null ∨ v = .bool true ∨ v = .bool false)
+    (hc : (Fl.ofNat flags).color = false) :
+    ∃ t tok p, serialize fmt flags v = .ok t ∧ Tokener.new 32 0 = some tok ∧
+      (parseExZ refLibc tok t).err = .success ∧ (parseExZ refLibc tok t).value = some p ∧
+      (parseExZ refLibc tok t).fault = none ∧ (parseExZ refLibc tok t).stuck = false ∧
+      valEq p v = true ∧ serialize fmt flags p = .ok t := by
+  rcases hv with rfl | rfl | rfl
+  · exact ⟨nullBytes, _, .null, rfl, rfl, by decide, rfl, by decide, by decide, rfl, rfl⟩
+  · refine ⟨trueBytes, _, .bool true, ?_, rfl, by decide, rfl, by decide, by decide, rfl, ?_⟩ <;>
+      simp [serialize, serChild, boolText, withColor, hc]
+  · refine ⟨falseBytes, _, .bool false, ?_, rfl, by decide, rfl, by decide, by decide, rfl, ?_⟩ <;>
+      simp [serialize, serChild, boolText, withColor, hc]
+
+end roundtrip
+
+/-! ## non-vacuity and counter-examples outside the hypotheses -/
+
+/-- the reference `%.17g` shapes used below (the real `Dbl.fmtG17` is too heavy for kernel evaluation; the
+driver runs it, compiled, on every double) -/
+def fmtDemo (b : UInt64) : Bytes :=
+  if b = 0x8000000000000000 then [45, 48]                     -- -0
+  else if b = 0x4415AF1D78B58C40 then [49, 101, 43, 50, 48]   -- 1e+20
+  else [49, 46, 53]                                           -- 1.5
+
+/-- a non-trivial tree meeting every hypothesis: control bytes, NUL, DEL, invalid UTF-8, `/`, both integer
+types at their bounds, -0.0 and 1e+20, retained text, nested containers, a key with an escape -/
+def demoTree : JVal :=
+  .obj [([97, 47], .arr [.str [0, 8, 31, 34, 47, 92, 127, 195, 255], .int true (-9223372036854775808),
+          .int false 18446744073709551615, .dbl 0x8000000000000000 none, .dbl 0x4415AF1D78B58C40 none]),
+        ([], .arr []), ([10], .obj [([107], .dbl 0x3FF8000000000000 (some [49, 46, 53, 48])), ([108], .null)])]
+
+example : treeOk fmtDemo demoTree = true ∧ 2 * nest demoTree ≤ intMax ∧ nest demoTree < 32 := by
+  refine ⟨by decide, by decide, by decide⟩
+
+/-- … and what the model emits for it with PRETTY|SPACED|NOZERO|COLOR resp. PLAIN: `-0.0`, `1e+20` (NOZERO keeps the
+exponent), `\u0000`, `\/`, raw 0xC3 0xFF -/
+example : serialize fmtDemo 0 (.arr [.dbl 0x8000000000000000 none, .dbl 0x4415AF1D78B58C40 none, .str [0, 47, 255]]) =
+    .ok [91, 45, 48, 46, 48, 44, 49, 101, 43, 50, 48, 44, 34, 92, 117, 48, 48, 48, 48, 92, 47, 255, 34, 93] := by
+  decide
+
+example : serialize fmtDemo 4 (.dbl 0x4415AF1D78B58C40 none) = .ok [49, 101, 43, 50, 48] := by decide
+
+/-- outside the property: NaN has no RFC 8259 rendering (`docOf` is `none`) although the model still emits text -/
+example : docOfTop fmtDemo 0 (.dbl 0x7FF8000000000000 none) = none ∧
+    serialize fmtDemo 0 (.dbl 0x7FF8000000000000 none) = .ok [78, 97, 78] := by
+  refine ⟨by decide, by decide⟩
+
+/-- outside `g17Shape`: a libc printing an upper-case exponent without fraction would get ".0" appended after
+the exponent (`1E5.0`), which is why the shape is a hypothesis and is checked against glibc on every run -/
+example : doublePost false [49, 69, 53] = .ok [49, 69, 53, 46, 48] := by decide
 
 end JsonC.Serialize
